@@ -190,7 +190,9 @@ func prehashMsiDir(cdf *comdoc.ComDoc, parent *comdoc.DirEnt, d io.Writer) error
 		return err
 	}
 	sortMsiFiles(files)
-	prehashMsiDirent(parent, d)
+	if err := prehashMsiDirent(parent, d); err != nil {
+		return err
+	}
 	for _, item := range files {
 		name := item.Name()
 		if parent.Type == comdoc.DirRoot && (name == msiDigitalSignature || name == msiDigitalSignatureEx) {
@@ -201,7 +203,9 @@ func prehashMsiDir(cdf *comdoc.ComDoc, parent *comdoc.DirEnt, d io.Writer) error
 		}
 		switch item.Type {
 		case comdoc.DirStream:
-			prehashMsiDirent(item, d)
+			if err := prehashMsiDirent(item, d); err != nil {
+				return err
+			}
 		case comdoc.DirStorage:
 			if err := prehashMsiDir(cdf, item, d); err != nil {
 				return err
@@ -212,12 +216,16 @@ func prehashMsiDir(cdf *comdoc.ComDoc, parent *comdoc.DirEnt, d io.Writer) error
 }
 
 // Hash a MSI stream's extended metadata
-func prehashMsiDirent(item *comdoc.DirEnt, d io.Writer) {
+func prehashMsiDirent(item *comdoc.DirEnt, d io.Writer) error {
 	buf := bytes.NewBuffer(make([]byte, 0, 128))
 	_ = binary.Write(buf, binary.LittleEndian, item.RawDirEnt)
 	enc := buf.Bytes()
 	// Name
 	if item.Type != comdoc.DirRoot {
+		// length is in bytes and includes the terminator, which isn't hashed
+		if item.NameLength < 2 || int(item.NameLength) > 2*len(item.NameRunes) {
+			return fmt.Errorf("invalid name length %d in MSI directory entry %d", item.NameLength, item.Index)
+		}
 		_, _ = d.Write(enc[:item.NameLength-2])
 	}
 	// UID
@@ -234,6 +242,7 @@ func prehashMsiDirent(item *comdoc.DirEnt, d io.Writer) {
 	if item.Type != comdoc.DirRoot {
 		_, _ = d.Write(enc[100:116])
 	}
+	return nil
 }
 
 // Sort a list of MSI streams in the order needed for hashing
